@@ -660,6 +660,11 @@ func c19GenScript(r *rand.Rand, name string, nblocks int) *c19Script {
 					a.Who = target
 				}
 				a.Amount = []int64{1, 500, 1000, 2000, 2999000}[r.Intn(5)]
+				// now and then the whole genesis stake: the validator record is deleted two blocks later
+				if a.Kind == "unstake" && a.Who < nv && r.Intn(3) == 0 {
+					a.Amount = sc.Powers[a.Who]
+					target = a.Who
+				}
 			}
 			if a.Who >= ncast {
 				a.Who = 0
@@ -772,6 +777,21 @@ func c19Directed() []*c19Script {
 		sc := &c19Script{Name: "float-one-minus-0.9", NVals: 10, Cfg: c}
 		sc.Blocks = idle(5)
 		sc.Blocks = append(sc.Blocks, c19Block{DT: 15, Acts: append([]c19Act{{Kind: "allege", Who: 0, Mal: 9, Req: 0}}, votes(0, nil, []int{1})...)})
+		sc.Blocks = append(sc.Blocks, idle(2)...)
+		out = append(out, sc)
+	}
+	// accused unstaked everything: its validator record is deleted by EndBlock before the votes cross
+	{
+		c := base
+		sc := &c19Script{Name: "accused-unstaked-all", NVals: 4, Cfg: c}
+		sc.Blocks = idle(5)
+		sc.Blocks = append(sc.Blocks,
+			c19Block{DT: 15, Acts: []c19Act{{Kind: "unstake", Who: 3, Amount: 2997000}}},
+			c19Block{DT: 15},
+			c19Block{DT: 15, Acts: append([]c19Act{{Kind: "allege", Who: 0, Mal: 3, Req: 0}}, votes(0, []int{0, 1}, nil)...)},
+			c19Block{DT: 15, Acts: []c19Act{{Kind: "vote", Who: 2, Req: 0, Choice: 2}, {Kind: "withdraw", Who: 3, Amount: 1000}, {Kind: "stake", Who: 3, Amount: 5000}}},
+			c19Block{DT: 86400 + 1, Acts: []c19Act{{Kind: "release", Who: 3}, {Kind: "withdraw", Who: 3, Amount: 1000}}},
+			c19Block{DT: 15, Acts: []c19Act{{Kind: "allege", Who: 1, Mal: 3, Req: 1}, {Kind: "stake", Who: 3, Amount: 5000}}})
 		sc.Blocks = append(sc.Blocks, idle(2)...)
 		out = append(out, sc)
 	}
